@@ -411,7 +411,11 @@ def load_audit(path):
         parts = ln.split("\t")
         if len(parts) < 3:
             continue
-        aud[parts[1]] = (int(parts[0]), parts[2])
+        # `keyA || keyB`: one audited site that has two spellings (e.g. `x?` vs `match x { Some(v) => v, None => return None }`
+        # give different provenance heads); the alternatives share ONE count
+        alts = [a.strip() for a in parts[1].split(" || ")]
+        for a in alts:
+            aud[a] = (int(parts[0]), parts[2], alts[0])
     return aud
 
 
@@ -426,13 +430,14 @@ def apply_audit(res, rule, sites, audit, report_prefix=""):
             res.ok(rule, "%s|%s" % (s.discharge, key), s.where(), "%s %s: %s %s" % (s.kind, s.what, s.discharge, s.detail if isinstance(s.detail, str) else ""))
             continue
         ak = s.audit_key()
-        if ak in audit and used[ak] < audit[ak][0]:
-            used[ak] += 1
+        canon = audit[ak][2] if ak in audit and len(audit[ak]) > 2 else ak
+        if ak in audit and used[canon] < audit[ak][0]:
+            used[canon] += 1
             res.audited(rule, "A|%s" % key, s.where(), "%s %s on %s — audited: %s" % (s.kind, s.what, s.operand, audit[ak][1]))
         else:
             residual.append(s)
             res.violation(rule, "site|%s" % ak, s.where(),
                           "%s%s %s on `%s` is neither locally discharged nor audited (guards: %s)" % (
                               report_prefix, s.kind, s.what, s.operand, "; ".join(guard_strs(s.body, s.bb))[:300]))
-    stale = [k for k, (n, _) in audit.items() if used[k] < n]
+    stale = [k for k, v in audit.items() if (len(v) < 3 or v[2] == k) and used[k] < v[0]]
     return residual, stale
